@@ -2940,7 +2940,7 @@ class SourceCatalog:
 
         return flux, fluxerr
 
-    def _make_elliptical_apertures(self, scale=6.0):
+    def _make_elliptical_apertures(self, scale=6.0, min_circ_radius=None):
         """
         Return a list of elliptical apertures based on the scaled
         isophotal shape of the sources.
@@ -2959,6 +2959,11 @@ class SourceCatalog:
             axes. The default value of 6.0 is roughly two times the
             isophotal extent of the source. A `~numpy.ndarray` input
             must be a 1D array of length ``nlabels``.
+
+        min_circ_radius : float or `None`, optional
+            The radius of the circular aperture used where ``scale``
+            is zero. If `None`, then the minimum circular radius in the
+            `SourceCatalog` ``kron_params`` is used.
 
         Returns
         -------
@@ -2987,8 +2992,10 @@ class SourceCatalog:
 
             # kron_radius = 0 -> scale = 0 -> major/minor_size = 0
             if values[2] == 0 and values[3] == 0:
+                if min_circ_radius is None:
+                    min_circ_radius = self.kron_params[2]
                 aperture.append(CircularAperture((values[0], values[1]),
-                                                 r=self.kron_params[2]))
+                                                 r=min_circ_radius))
                 continue
 
             (xcen_, ycen_, major_, minor_, theta_) = values[:-1]
@@ -3154,7 +3161,9 @@ class SourceCatalog:
         # NOTE: if kron_radius = NaN, scale = NaN and kron_aperture = None
         kron_radius = self._calc_kron_radius(kron_params)
         scale = kron_radius.value * kron_params[0]
-        return self._make_elliptical_apertures(scale=scale)
+        min_circ_radius = kron_params[2] if len(kron_params) == 3 else None
+        return self._make_elliptical_apertures(
+            scale=scale, min_circ_radius=min_circ_radius)
 
     @lazyproperty
     @use_detcat
